@@ -17,6 +17,8 @@ pub struct ReplyVt {
     pub build: fn(&str, &str, u32) -> BuildRes,
     /// via "fn" (sv::dispatch_reply) | "ep" (entry_points::reply) | "mt" (multitest Contract impl)
     pub dispatch: fn(&str, DepsMut, Env, Reply) -> Result<Response, Value>,
+    /// the contract as the multitest chain stores it (programs with a `fire` handler: chain.rs)
+    pub boxed: Option<fn() -> Box<dyn sylvia::cw_multi_test::Contract<Empty, Empty>>>,
 }
 
 fn reply_on_text(r: &ReplyOn) -> &'static str {
@@ -175,9 +177,14 @@ pub fn reply_main_with(vts: &[ReplyVt]) {
     let progs = rt::read_ndjson(&a[1]);
     rt::open_trace(&a[2]);
     rt::quiet_panics();
+    let chain = a.get(3).map(|m| m == "chain").unwrap_or(false);
     for vt in vts {
         if let Some(p) = progs.iter().find(|p| p["id"] == vt.id) {
-            run_reply_program(vt, p);
+            if chain {
+                crate::chain::run_chain_program(vt, p);
+            } else {
+                run_reply_program(vt, p);
+            }
         }
     }
     rt::close_trace();
@@ -199,6 +206,10 @@ pub fn build_with(
 ) -> Result<(SubMsg<Empty>, bool, Vec<Value>), String> {
     let bank: CosmosMsg<Empty> = CosmosMsg::Bank(BankMsg::Send { to_address: "bob".to_string(), amount: coins(1, "atom") });
     let (r, expect_msg, expect_gas): (Recv, CosmosMsg<Empty>, Option<u64>) = match recv {
+        _ if recv.starts_with("chain|") => {
+            let (r, m) = crate::chain::chain_recv(recv).ok_or_else(|| format!("bad receiver {recv}"))?;
+            (r, m, None)
+        }
         "submsg" => (Recv::Sub(SubMsg::new(wasm_msg())), wasm_msg().into(), None),
         "submsg_gas" => (Recv::Sub(SubMsg::reply_never(bank.clone()).with_gas_limit(77)), bank.clone(), Some(77)),
         "wasm" => (Recv::Wasm(wasm_msg()), wasm_msg().into(), None),
